@@ -120,7 +120,7 @@ impl<'lib> DepOrder<'lib> {
 //|                             assert(self.stack@[idx] == layout.insts@[k].cell);
 //|                         }
 //|                     }
-//@   before /And insert the cell \(pointer\) itself/
+//@   before1 /And insert the cell \(pointer\) itself|self\.seen\.insert\(Ptr::clone\(ptr\)\)/
 //|             let ghost after = *self;
 //|             proof {
 //|                 assert(!after.seen@.contains(*ptr));
@@ -242,7 +242,7 @@ pub mod tetris {
 //|                             assert(self.stack@[idx] == dep_seq(*layout)[k]);
 //|                         }
 //|                     }
-//@   before /And insert the cell \(pointer\) itself/
+//@   before1 /And insert the cell \(pointer\) itself|self\.seen\.insert\(Ptr::clone\(ptr\)\)/
 //|             let ghost after = *self;
 //|             proof {
 //|                 assert(!after.seen@.contains(*ptr));
